@@ -6,8 +6,8 @@
    option space itself is a generated fact.  Tie: every ordering/limit/threshold/compression choice crossed with histories
    crossing the dictionary limits, decoded by a DEFAULT consumer, equivalence evaluated in Coq on real input/output. *)
 From Coq Require Import String.
-From Verif Require Import Base.ListX Obf.Obfuscate Otap.Tables Otap.Attrs Otap.Sorters Stream.DictMachine Stream.OptionsBaseline.
-From VerifGen Require Import Options.
+From Verif Require Import Base.ListX Obf.Obfuscate Otap.Tables Otap.Attrs Otap.Sorters Stream.DictMachine Stream.OptionsBaseline Otap.WrapperGuardsBaseline.
+From VerifGen Require Import Options WrapperGuards.
 
 (* whatever order a sorter variant puts the attribute rows in, the decoder recovers every parent id *)
 Theorem C04_any_attribute_order : forall W rows sorted,
@@ -30,6 +30,13 @@ Theorem C04_option_space_known :
   all_in order_attrs32_by_variants known_attrs32_orders = true.
 Proof. vm_compute. repeat split; reflexivity. Qed.
 Print Assumptions C04_option_space_known.
+
+(* "independent of schema evolution": which writes make a still-absent optional column appear is, for every wrapper method
+   of the current source, what the model (Otap/Wrappers.v) assumes — a wrapper that starts swallowing zeros where zero is a
+   value makes the decoded content depend on whether the column had appeared earlier in the stream *)
+Theorem C04_wrapper_guards_as_modelled : forallb guard_known wrapper_guards = true.
+Proof. vm_compute. reflexivity. Qed.
+Print Assumptions C04_wrapper_guards_as_modelled.
 
 (* Recorded findings: the encodings three 16-bit (and the analogous 32-bit) ordering variants used before the fix
    are mis-decoded; the reset rule before its fix exhausted the retry budget (see C08/C13). *)
